@@ -2,7 +2,7 @@
     source by tools/rs2coq.py on every run (theories/Gen.v; what it obtains from header parsing -- the framing the headers
     define, and whether a content-length / transfer-encoding header is present -- is a parameter of the translation), is the
     decision the hand-written model makes, for ALL methods, status codes and header values. *)
-From Coq Require Import NArith Bool List Btauto.
+From Coq Require Import NArith ZArith Bool List Btauto Lia ZifyBool ZifyN.
 From Hoot Require Import Base Body Url Request Gen.
 Open Scope N_scope.
 
@@ -22,8 +22,17 @@ Proof.
   assert (Hp : (match cl, te with None, None => false | _, _ => true end) = (present cl || present te)%bool)
     by (destruct cl, te; reflexivity).
   rewrite Hp.
-  match goal with
-  | |- (if ?a then _ else _) = Ok (if ?b then _ else _) =>
-      assert (Hab : a = b) by btauto; rewrite Hab; destruct b; reflexivity
-  end.
+  first
+    [ match goal with
+      | |- (if ?a then _ else _) = Ok (if ?b then _ else _) =>
+          assert (Hab : a = b) by btauto; rewrite Hab; destruct b; reflexivity
+      end
+    | (* shape-independent: every method, every comparison on the status, both presence flags *)
+      destruct m; cbn [method_eqb orb andb negb];
+      repeat (try reflexivity; try lia;
+              match goal with
+              | |- context [if ?c then _ else _] => destruct c eqn:?
+              | |- context [present ?x] => destruct (present x) eqn:?
+              end);
+      try reflexivity; lia ].
 Qed.
